@@ -387,12 +387,13 @@ theorem fuel_linear : ∀ e : E, e.fuel ≤ 9 * e.ntoks
     simp only [E.fuel, E.btSize, E.opFuel, E.ntoks] at hl hr ⊢
     omega
 
-/-- the initial parser state sees the whole token list (brace-free: braces move the scope stack at lex time) -/
-theorem seesT_init (toks : List Tk) (h : ∀ t ∈ toks, t.1 ≠ "LBRACE" ∧ t.1 ≠ "RBRACE") :
+/-- the initial parser state sees the whole token list -/
+theorem seesT_init (toks : List Tk) :
     SeesT (initState (toks.map (fun t => SEv.tok t.1 t.2) ++ [.eof])) toks := by
   refine ⟨⟨[], toks, false, by simp [initState], rfl, by simp, by simp, ?_, by intro _; rfl⟩, by simp [initState], ?_⟩
-  · intro t ht
-    exact ⟨(h t ht).1, (h t ht).2, fun _ => by simp [initState, isTypeInScopes, scopeLookup]⟩
+  · intro sc hsc e he
+    simp only [initState, List.mem_singleton] at hsc
+    subst hsc; simp at he
   · intro j t hj; simp [initState] at hj
 
 /-! ## redundant parentheses change nothing but coordinates -/
